@@ -1,0 +1,14 @@
+//go:build verif
+
+// Contracts for package recordio/proto, read by the govc verifier (/verif). Comments only.
+package proto
+
+// pwCount(w): number of Write calls on a protobuf record writer; the i-th returns pwErr(w,i).
+
+//@ ghost pwCount(w Ref) Int
+//@ spec func pwErr(w Ref, i Int) Err
+
+//@ iface WriterI.Write
+//@   ensures [step] pwCount(this) == old(pwCount(this)) + 1
+//@   ensures [err] r1 == pwErr(this, old(pwCount(this)))
+//@   modifies pwCount(this)
